@@ -16,7 +16,9 @@
 //! Oracle (independent of the Lean model): a *conventional-reading* evaluator.  Whenever a parser accepts a
 //! text, the text (white space removed) must have a reading as an arithmetic expression over numbers,
 //! single-letter variables, + - * / ^, parentheses, juxtaposition and unary signs, and the returned
-//! polynomial must take the reading's value at three points; a text with no reading must be rejected.
+//! polynomial must take the reading's value at three points (allowance 1e-9 of the largest magnitude met) and at the two
+//! exact points "every variable = 1" and "every variable = 2" (allowance: a few units in the last place, `tight_points`);
+//! a text with no reading must be rejected.
 use crate::c01::show_parsed as show1;
 use crate::c02::show_parsed as show2;
 use crate::util::*;
@@ -284,6 +286,55 @@ fn close(a: f64, b: f64, big: f64) -> bool {
     a.is_finite() && (a - b).abs() <= 1e-9 * big.max(1.0)
 }
 
+const EPS: f64 = 2.220446049250313e-16;
+
+/// sum of |exponent| over the powers of the reading: the rounding of an exponent (and of a merged exponent of a repeated
+/// variable) is amplified by |exponent| * |ln x| in the value
+fn exponent_mass(e: &Ex, env: &dyn Fn(char) -> f64) -> f64 {
+    match e {
+        Ex::Num(_) | Ex::Var(_) => 0.0,
+        Ex::Neg(a) => exponent_mass(a, env),
+        Ex::Bin('^', a, b) => {
+            let mut big = 0.0;
+            exponent_mass(a, env) + eval(b, env, &mut big).abs()
+        }
+        Ex::Bin(_, a, b) => exponent_mass(a, env) + exponent_mass(b, env),
+    }
+}
+
+/// "takes EXACTLY the values of that reading": two points where both evaluations are exact up to a few roundings, so that
+/// a coefficient or an exponent that was read a relative 1e-9 .. 1e-14 off what the text says (a value next to a whole
+/// number "tidied" to it, a ratio of huge integers taken for its neighbour) is seen, which the three general points with
+/// their 1e-9 allowance cannot.  Every variable = 1: whatever the exponents, the value is the sum of the coefficients in
+/// the order written.  Every variable = 2: every whole power is exact, a fractional one is one correctly rounded `powf`.
+/// Allowance: a few units in the last place of the largest magnitude met, per character and per pair of terms (the
+/// univariate parser adds like terms first and sums by ascending power), plus the rounding of the exponents amplified by
+/// |exponent| * ln 2.  Abstains where the reading leaves the comfortable range, as the general points do.
+fn tight_points(text: &str, e: &Ex, got_at: &dyn Fn(f64) -> Result<f64, String>) -> Result<(), String> {
+    let chars = text.chars().filter(|c| !c.is_whitespace()).count() as f64;
+    let terms = 1.0 + text.chars().filter(|c| *c == '+' || *c == '-').count() as f64;
+    for x in [1.0f64, 2.0] {
+        let env = move |_c: char| x;
+        let mut big = 0.0;
+        let want = eval(e, &env, &mut big);
+        if !want.is_finite() || !(1e-200..=1e100).contains(&big) {
+            continue;
+        }
+        let mass = exponent_mass(e, &env);
+        if !mass.is_finite() {
+            continue;
+        }
+        let got = got_at(x)?;
+        let tol = EPS * big * (16.0 + 4.0 * chars + 2.0 * terms * terms + 8.0 * mass * x.ln().abs());
+        if !(got.is_finite() && (got - want).abs() <= tol) {
+            return Err(format!(
+                "misread: with every variable = {x:?} the polynomial gives {got:?}, the text reads as {want:?} (beyond the rounding of either evaluation)"
+            ));
+        }
+    }
+    Ok(())
+}
+
 pub fn fidelity1(text: &str, r: &Result<SimplePolynomial, spindalis_core::polynomials::PolynomialError>) -> Result<(), String> {
     let Ok(p) = r else { return Ok(()) };
     match reading(text, false) {
@@ -313,7 +364,7 @@ pub fn fidelity1(text: &str, r: &Result<SimplePolynomial, spindalis_core::polyno
             if div0 == 3 {
                 return Err("accepted a text whose reading divides by zero at every point (it has no value)".into());
             }
-            Ok(())
+            tight_points(text, &e, &|x| p.eval_univariate(x).map_err(|e| format!("eval failed {e:?}")))
         }
     }
 }
@@ -348,7 +399,10 @@ pub fn fidelity2(text: &str, r: &Result<IntermediatePolynomial, spindalis_core::
             if div0 == 3 {
                 return Err("accepted a text whose reading divides by zero at every point (it has no value)".into());
             }
-            Ok(())
+            tight_points(text, &e, &|x| {
+                let binds: Vec<(String, f64)> = p.variables.iter().map(|v| (v.clone(), x)).collect();
+                p.eval_multivariate(&binds).map_err(|e| format!("eval failed {e:?}"))
+            })
         }
     }
 }
@@ -1167,11 +1221,126 @@ pub fn generate(seed: u64, thorough: bool, emit: &mut dyn FnMut(String)) {
             }
         }
     }
+    generate_near(seed, thorough, emit);
     // exponent magnitudes
     for e in ["65535", "65536", "65537", "99999999999", "18446744073709551615", "18446744073709551616",
               "340282366920938463463374607431768211456", "00000000000000000000000000000000000000007"] {
         emit(format!("parse1 {}", req_string(&format!("2x^{e}"))));
         emit(format!("parse2 {}", req_string(&format!("2x^{e}"))));
         emit(format!("parse2 {}", req_string(&format!("2x^-{e}"))));
+    }
+}
+
+// ---------------------------------------------------------------- numbers next to special values, in particular spellings
+//
+// "No text is silently misread": a coefficient or an exponent spelled a relative 1e-1 .. 1e-17 next to a whole number, to
+// 1/2, 1/3 or 2/3 - as a decimal (`0.9999999999`, `2.0000000001`), as a ratio of huge integers (`2000000001/2000000000`),
+// or arising as the merged exponent of a repeated variable (`x^0.5000000001x^0.5`, `x^0.6x^0.3x^0.1`) - means what it says,
+// not the round number next to it.  Compared with the model (which reads the digits exactly) and judged by the oracle at
+// the two exact points of `tight_points`.
+
+/// the decimal spelling of `num/den * 10^k + delta` units of 10^-k (k digits after the point)
+fn decimal_near(num: u128, den: u128, k: usize, delta: i128) -> String {
+    let scaled = (num * 10u128.pow(k as u32) / den) as i128 + delta;
+    let digits = format!("{:0>width$}", scaled.max(0), width = k + 1);
+    let (int, frac) = digits.split_at(digits.len() - k);
+    format!("{int}.{frac}")
+}
+
+/// both parsers on the shapes of the univariate grammar, the multivariate parser on all (the univariate one on a sample of
+/// the others: it must reject them)
+fn put_near(emit: &mut dyn FnMut(String), shape: &str, n: &str, j: &mut usize) {
+    let t = shape.replace("{}", n);
+    *j += 1;
+    emit(format!("parse2 {}", req_string(&t)));
+    let univariate = !shape.contains('y') && !shape.contains("x^{}") && !shape.contains("^-") && !shape.contains("^0.5") && !shape.contains("^1/2") && !shape.contains("xx");
+    if univariate || *j % 8 == 0 {
+        emit(format!("parse1 {}", req_string(&t)));
+    }
+}
+
+fn generate_near(seed: u64, thorough: bool, emit: &mut dyn FnMut(String)) {
+    let mut rng = Rng::new(seed ^ 0xC16_0EA2);
+    let specials: &[(u128, u128)] = &[(1, 1), (2, 1), (3, 1), (10, 1), (1, 2), (1, 3), (2, 3), (5, 2), (100, 1), (0, 1)];
+    let mut numbers: Vec<String> = Vec::new(); // decimal spellings
+    let mut ratios: Vec<String> = Vec::new(); // a/b spellings
+    for &(num, den) in specials {
+        for k in 1..=17usize {
+            for delta in [-1i128, 1] {
+                if num == 0 && delta < 0 {
+                    continue;
+                }
+                numbers.push(decimal_near(num, den, k, delta));
+            }
+        }
+        // ratios of huge integers: (v * b +- 1) / b
+        for b in [1_000_000u128, 1_000_000_000, 2_000_000_000, 3_000_000_000, 1u128 << 31, 1u128 << 40, 10u128.pow(12), 3 * 10u128.pow(14), 1u128 << 53, 10u128.pow(17)] {
+            if b % den != 0 {
+                continue;
+            }
+            for delta in [-1i128, 1] {
+                let a = (num * b / den) as i128 + delta;
+                if a > 0 {
+                    ratios.push(format!("{a}/{b}"));
+                }
+            }
+        }
+    }
+    // a point without a leading zero, trailing zeros, leading zeros
+    for extra in [".9999999999", ".99999999999999", "1.00000000010", "01.0000000001", "0.50000000001", ".49999999999", "0.33333333333", "0.333333333333333333", "0.1", "0.2", "0.3", "0.7"] {
+        numbers.push(extra.to_string());
+    }
+    let coefficient_shapes: &[&str] = &["{}x", "{}x^2 + 1", "3y - {}x^2y", "{}", "x + {}", "-{}x^3", "x^2 - {}x + {}", "{}xy^2z", "2x^3 + {}x^3", "{}x - x"];
+    let exponent_shapes: &[&str] = &[
+        "x^{}", "2x^{}y", "x^-{}", "3x^{}y^2 + 1", "x^{}x", "x^{}x^-1", "x^{}x^0.5", "x^{}yx^-2", "x^{}x^{}", "x^-{}x^2", "y^2x^{}y^{}", "x^0.5x^{}",
+        "x^1/2x^{}", "xx^{}", "x^{}x^-{}x",
+    ];
+    let mut j = 0usize;
+    for (i, n) in numbers.iter().chain(ratios.iter()).enumerate() {
+        if thorough {
+            for sh in coefficient_shapes.iter().chain(exponent_shapes.iter()) {
+                put_near(emit, sh, n, &mut j);
+            }
+        } else {
+            // three coefficient shapes and four exponent shapes per spelling, every shape every few spellings
+            for q in 0..3 {
+                put_near(emit, coefficient_shapes[(i + 3 * q) % coefficient_shapes.len()], n, &mut j);
+            }
+            for q in 0..4 {
+                put_near(emit, exponent_shapes[(i + 4 * q) % exponent_shapes.len()], n, &mut j);
+            }
+        }
+    }
+    // merged exponents of repeated variables that land on or next to a special value
+    for t in [
+        "x^0.6x^0.3x^0.1", "x^0.7x^0.2x^0.1", "x^-0.6x^-0.3x^-0.1", "x^0.1x^0.2", "x^.1x^.2x^.7", "x^1/3x^1/3x^1/3", "x^1/3x^2/3", "x^1/4x^1/4", "x^1/6x^1/3", "x^1/6x^1/6x^1/6",
+        "x^0.25x^0.25", "x^2.5x^-1.5", "x^1/8x^3/8", "x^0.3x^0.2", "x^1.5x^.5", "x^3x^-1", "x^-1/2x^-1/2", "x^-0.5x^-0.5", "x^-1/3x^-2/3", "x^0.1x^0.1x^0.1x^0.1x^0.1x^0.1x^0.1x^0.1x^0.1x^0.1",
+        "x^0.9x^0.1", "x^1.1x^-0.1", "x^2.2x^-0.2", "x^1/7x^6/7", "x^1/3x^1/3x^1/3y^0.6y^0.3y^0.1", "2x^0.6yx^0.3y^-1x^0.1", "x^1/2x^1/2 - x", "x^0.6x^0.3x^0.1 - x", "x^1/4x^1/4 - x^1/2",
+        "xxxxxxxxxx", "x^0.5xx^0.5", "x^65535x", "x^-65536x^65536",
+    ] {
+        emit(format!("parse2 {}", req_string(t)));
+        emit(format!("parse1 {}", req_string(t)));
+    }
+    // random: a special value, a distance, a spelling, a place
+    let m = if thorough { 20_000 } else { 600 };
+    for _ in 0..m {
+        let &(num, den) = rng.pick(specials);
+        let k = 3 + rng.below(15) as usize;
+        let delta = if num == 0 { 1 + rng.below(9) as i128 } else { rng.range(-9, 9) as i128 };
+        let n = if rng.chance(1, 3) && num > 0 {
+            let b = match rng.below(3) {
+                0 => 10u128.pow(k as u32),
+                1 => (1 + rng.below(9) as u128) * 10u128.pow(k as u32 - 1) * den,
+                _ => (1u128 << (10 + rng.below(44))) * den,
+            };
+            if b % den != 0 {
+                continue;
+            }
+            format!("{}/{b}", (num * b / den) as i128 + if delta == 0 { 1 } else { delta })
+        } else {
+            decimal_near(num, den, k, delta)
+        };
+        let sh = if rng.chance(1, 2) { *rng.pick(coefficient_shapes) } else { *rng.pick(exponent_shapes) };
+        put_near(emit, sh, &n, &mut j);
     }
 }
